@@ -297,6 +297,15 @@ def find_closures(msk: str, lo: int, hi: int):
                 while j < hi and msk[j] in ' \t\n':
                     j += 1
                 bs = j
+                if msk[bs:bs + 2] == '->':
+                    # explicit return type: the body is the block that follows; the type belongs to the header
+                    k2 = bs
+                    while k2 < hi and msk[k2] != '{':
+                        if msk[k2] in '([':
+                            k2 = match_close(msk, k2)
+                        k2 += 1
+                    he = k2
+                    bs = k2
                 if msk[bs] == '{':
                     be = match_close(msk, bs) + 1
                     block = True
